@@ -131,13 +131,24 @@ pub fn run(rec: &mut Recorder, w: &mut World, tier: &str, seed: u64) {
     let n_hist = (if tier == "thorough" { 1500 } else { 120 }) * rec.budget as usize;
     let maxlen = if tier == "thorough" { 80 } else { 30 };
     for hi in 0..n_hist {
-        let obs = *rng.pick(&DOMS);
-        let others: Vec<&str> = DOMS.iter().cloned().filter(|d| *d != obs).collect();
+        // every other history: tenants with unusual but valid names — blank-only, "*", the role manager's "DEFAULT", a
+        // blank-edged or case variant of another tenant's name, a name with a comma.  (Not the empty string: an empty filter
+        // value is the documented wildcard, so a filtered removal "in tenant ''" is not confined to it.)
+        let odd = hi % 2 == 1;
+        let doms: Vec<&str> = if odd {
+            let pool = ["d1", " ", "*", "DEFAULT", "d1 ", "D1", "  ", "d,1", "**", "d*"];
+            let mut v: Vec<&str> = vec![];
+            while v.len() < 3 { let d = *rng.pick(&pool); if !v.contains(&d) { v.push(d); } }
+            rec.count("tenants:unusual-names");
+            v
+        } else { DOMS.to_vec() };
+        let obs = *rng.pick(&doms);
+        let others: Vec<&str> = doms.iter().cloned().filter(|d| *d != obs).collect();
         let mut lines: Vec<Vec<String>> = vec![];
-        for _ in 0..rng.below(10) { let d = *rng.pick(&DOMS); let mut l = sv(&["p", "p"]); l.extend(p_rule(&mut rng, d)); if !lines.contains(&l) { lines.push(l); } }
-        for _ in 0..rng.below(10) { let d = *rng.pick(&DOMS); let mut l = sv(&["g", "g"]); l.extend(g_rule(&mut rng, d)); if !lines.contains(&l) { lines.push(l); } }
+        for _ in 0..rng.below(10) { let d = *rng.pick(&doms); let mut l = sv(&["p", "p"]); l.extend(p_rule(&mut rng, d)); if !lines.contains(&l) { lines.push(l); } }
+        for _ in 0..rng.below(10) { let d = *rng.pick(&doms); let mut l = sv(&["g", "g"]); l.extend(g_rule(&mut rng, d)); if !lines.contains(&l) { lines.push(l); } }
         rec.begin();
-        new_enforcer(rec, w, &m, *rng.pick(&["memory", "null", "file"]), &lines, "", false);
+        new_enforcer(rec, w, &m, if odd { "memory" } else { *rng.pick(&["memory", "null", "file"]) }, &lines, "", false);
         // (file/null adapters start empty: seed the store through the API)
         let mut before = view(rec, w, obs);
         let len = 1 + rng.below(maxlen);
